@@ -21,7 +21,7 @@ def unhex(s):
     return struct.unpack(">d", bytes.fromhex(s))[0]
 
 
-def make_case(rng, LA, LB, branch, ecpL=None, benign=False):
+def make_case(rng, LA, LB, branch, ecpL=None, benign=False, twin=None):
     """three atoms (0: shell A, 1: shell B, 2: ECP); coincident centres get bit-identical coordinates"""
     def pt(scale=1.0):
         return [round(rng.uniform(-1.6, 1.6) * scale, 3) for _ in range(3)]
@@ -50,9 +50,18 @@ def make_case(rng, LA, LB, branch, ecpL=None, benign=False):
         for _ in range(rng.choice([1, 1, 2])):
             n = 2 if benign else rng.choice([2, 2, 2, 1, 0])
             prims.append("%d %d %r %r" % (n, l, round(10 ** rng.uniform(-0.2, 0.6), 4), round(rng.uniform(-3, 5), 4)))
-    lines = ["reset", "atoms 3", "geom 0 " + " ".join(repr(x) for x in A + B + C), shell(0, LA), shell(1, LB),
+    shA, shB = shell(0, LA), shell(1, LB)
+    if twin and LA == LB:
+        # general contraction: the second shell has the exponents of the first; "same" also copies the coefficients
+        t = shA.split()
+        np_ = int(t[3])
+        tp = t[4:]
+        if twin == "exps":
+            tp = [tp[i] if i % 2 == 0 else repr(round(rng.choice([-1, 1]) * rng.uniform(0.3, 1.3), 4)) for i in range(2 * np_)]
+        shB = "shell 1 %d %d %s" % (LB, np_, " ".join(tp))
+    lines = ["reset", "atoms 3", "geom 0 " + " ".join(repr(x) for x in A + B + C), shA, shB,
              "ecp 2 %d %s" % (len(prims), " ".join(prims))]
-    return {"lines": lines, "LA": LA, "LB": LB, "branch": branch, "pos": [A, B, C], "ecpL": L}
+    return {"lines": lines, "LA": LA, "LB": LB, "branch": branch + ("/twin-" + twin if twin and LA == LB else ""), "pos": [A, B, C], "ecpL": L}
 
 
 def run(drv, text, timeout=900):
@@ -149,6 +158,7 @@ def fd_first(drv, case):
 
 def groups(branch):
     """centres that move together"""
+    branch = branch.split("/")[0]
     return {"distinct": [[0], [1], [2]], "A=C": [[0, 2], [1]], "B=C": [[0], [1, 2]], "A=B=C": [[0, 1, 2]], "A=B": [[0], [1], [2]]}[branch]
 
 
@@ -253,7 +263,7 @@ def second_oracle(drv, case, real, tol_rel):
         d = max([abs(x - y) for x, y in zip(a, b)] + [0.0])
         if d > 1e-10 * scale + 1e-14:
             fails.append({"what": "%s violated by %.3g (largest element %.3g)" % (name, d, scale), "hard": True})
-    if case["branch"] in ("distinct", "A=B"):
+    if case["branch"].split("/")[0] in ("distinct", "A=B"):
         for p in range(3):
             for q in range(3):
                 s = sym_idx(p, q)
@@ -291,3 +301,16 @@ def second_oracle(drv, case, real, tol_rel):
                         if dev > tol_rel * scale2 + 1e-5:
                             fails.append({"what": "second derivative d2/d%s_%d d%s_%d (matrix %d) differs from the finite difference of the analytic gradient by %.3g (largest element %.3g)" % ("ABC"[c1], p, "ABC"[c2], q, r2_index(c1, p, c2, q), dev, scale2)})
     return fails, worst
+
+
+def shift_check(drv, case, order):
+    """(worst abs difference, scale, blocks, where) between the shifted blocks of a derivative engine and the blocks a
+    plain engine computes for genuinely shifted shells"""
+    rc, out, err = run(drv, "\n".join(case["lines"] + ["shiftcheck 0 1 0 %d" % order]) + "\n")
+    if rc != 0:
+        return None
+    for l in out.split("\n"):
+        t = l.split()
+        if len(t) >= 6 and t[:2] == ["<", "S"]:
+            return unhex(t[3]), unhex(t[4]), int(t[2]), t[5]
+    return None
